@@ -1753,11 +1753,18 @@ func (mgr *Manager) startMonitoringConverters(watcher *fsnotify.Watcher) {
 								if err != nil || fileInfo.IsDir() {
 									return
 								}
+								name := strings.TrimSuffix(filepath.Base(event.Name), filepath.Ext(event.Name))
+								if _, ok := mgr.converters[name]; ok {
+									// a file was moved over the executable of a known converter
+									if err := mgr.restartConverterProcess(event.Name); err != nil {
+										log.Printf("error while restarting converter: %v", err)
+									}
+									return
+								}
 								if err := mgr.addConverter(event.Name); err != nil {
 									log.Printf("error while adding converter: %v", err)
 									return
 								}
-								name := strings.TrimSuffix(filepath.Base(event.Name), filepath.Ext(event.Name))
 								converter := mgr.converters[name]
 								mgr.event(Event{
 									Type:      "converterAdded",
